@@ -23,6 +23,22 @@ func init() {
 
 var c25Pkgs = []string{"gateway", "client", "transactions", "topics", "util"}
 
+// bounds checks are also decided for the codec-side helpers the five packages call at run time
+// (DecodePlain, the short-topic codec, Pack ...); the decode closure itself is C20's.
+var c25BoundsPkgs = []string{"gateway", "client", "transactions", "topics", "util", "packets", "packets1"}
+
+// inDecodeClosure: functions whose panic sites C20 decides (entry ReadPacket).
+func (c *Ctx) inDecodeClosure(f *ssa.Function) bool {
+	for f.Parent() != nil {
+		f = f.Parent()
+	}
+	switch f.Name() {
+	case "ReadPacket", "Unpack", "decodeFlags", "NewPacketWithHeader", "HeaderLength":
+		return true
+	}
+	return false
+}
+
 type proceedSite struct {
 	State int64 // -1 unknown, -2 nil
 	Types []string
@@ -444,6 +460,7 @@ func checkC25(c *Ctx, r *Report) {
 	}
 	// R4: pointer fields reset to nil after construction
 	li := c.newLockInfo()
+	c.checkTimerNeverNil(r, "R4", li)
 	for _, rel := range []string{"gateway", "client", "transactions"} {
 		seen := map[string]bool{}
 		for _, f := range c.repoFuncs(rel) {
@@ -654,7 +671,7 @@ func postC25(cs []*Ctx, r *Report, tier string) {
 		}
 		r.configActive = cfgName
 		var pk []string
-		for _, p := range c25Pkgs {
+		for _, p := range c25BoundsPkgs {
 			pk = append(pk, "./"+p)
 		}
 		entries, err := runBCE(c.Repo, c.GOARCH, pk...)
@@ -669,8 +686,11 @@ func postC25(cs []*Ctx, r *Report, tier string) {
 			unproven[fmt.Sprintf("%s:%d:%s", e.File, e.Line, e.Kind)] = e
 		}
 		matched := map[string]bool{}
-		for _, rel := range c25Pkgs {
+		for _, rel := range c25BoundsPkgs {
 			for _, f := range c.repoFuncs(rel) {
+				if (rel == "packets" || rel == "packets1") && c.inDecodeClosure(f) {
+					continue // the decoder's own sites are C20's obligations
+				}
 				allInstrs(f, func(i ssa.Instruction) {
 					kind := ""
 					switch x := i.(type) {
@@ -750,6 +770,36 @@ func postC25(cs []*Ctx, r *Report, tier string) {
 				}
 			}
 			key := "inlined:" + rel + ":" + e.Kind
+			// which analysed function contains the line? a bytes.Buffer accessor called on that line?
+			var host *ssa.Function
+			bufCall := ""
+			for _, pkg := range c25BoundsPkgs {
+				for _, f := range c.repoFuncs(pkg) {
+					file, a, b := c.funcLineRange(f)
+					if file != e.File || e.Line < a || e.Line > b {
+						continue
+					}
+					if host == nil || f.Parent() != nil {
+						host = f
+					}
+					allInstrs(f, func(i ssa.Instruction) {
+						ci, ok := i.(ssa.CallInstruction)
+						if !ok || !i.Pos().IsValid() || c.Fset.Position(i.Pos()).Line != e.Line {
+							return
+						}
+						if n := calleeName(ci.Common()); strings.HasPrefix(n, "(*bytes.Buffer).") {
+							bufCall = n
+						}
+					})
+				}
+			}
+			if host != nil && c.inDecodeClosure(host) && (strings.HasPrefix(rel, "packets/") || strings.HasPrefix(rel, "packets1/")) {
+				continue // C20 decides the decoder's sites
+			}
+			if bufCall != "" {
+				r.ok("R2", key+":"+fnKey(host), fmt.Sprintf("%s:%d", rel, e.Line), "inlined "+bufCall+" (slices its own buffer; invariant of bytes.Buffer)")
+				continue
+			}
 			if inSender && e.Kind == "IsSliceInBounds" {
 				r.ok("R2", key, fmt.Sprintf("%s:%d", rel, e.Line), "inlined bytes.Buffer.Bytes() (buf[off:], invariant of bytes.Buffer) inside the MQTT sender")
 			} else {
